@@ -36,7 +36,7 @@ structure ClientCfg where
   perc : PercCfg
   deriving DecidableEq, Repr
 
-def ClientCfg.good : ClientCfg := ⟨.primaryAlone, true, ⟨true, true⟩⟩
+def ClientCfg.good : ClientCfg := ⟨.primaryAlone, true, ⟨true, true, true⟩⟩
 
 /-- configuration under which `C28_atomic` is proved -/
 def ClientCfg.Good (c : ClientCfg) : Prop :=
@@ -93,10 +93,35 @@ inductive CStatus where
 def CStatus.str : CStatus → String
   | .running => "running" | .done => "done" | .failed => "failed"
 
+/-- How the client groups the keys by region when `TwoPhaseCommit` starts: its routing cache at
+that moment.  Splits, merges and epoch bumps change it between two runs of the same transaction. -/
+structure Grouping where
+  regionOf : List (Nat × Nat)     -- key ↦ region id (keys not listed: region 0)
+  preOrder : List Nat
+  comOrder : List Nat
+  deriving DecidableEq, Repr
+
+def Grouping.region (g : Grouping) (k : Nat) : Nat := ((g.regionOf.find? (fun p => p.1 = k)).map (·.2)).getD 0
+
+def Txn.regroup (t : Txn) (g : Grouping) : Txn :=
+  { t with region := g.region, preOrder := g.preOrder, comOrder := g.comOrder }
+
+/-- what `TwoPhaseCommit` guarantees about its grouping: every other region with a key is
+prewritten, the primary's region is skipped in the loop over the other regions -/
+def Grouping.OK (t : Txn) (g : Grouping) : Prop :=
+  (∀ m ∈ t.muts, g.region m.key ≠ g.region t.primary → g.region m.key ∈ g.preOrder) ∧
+  g.region t.primary ∉ g.comOrder
+
+instance Grouping.decOK (t : Txn) (g : Grouping) : Decidable (g.OK t) := by
+  unfold Grouping.OK; exact inferInstance
+
 structure Sys where
   store : Store
+  /-- the transaction as grouped by the current run of `TwoPhaseCommit` -/
+  cur : Txn
   pc : Nat := 0
-  pcMax : Nat := 0
+  /-- every RPC the client has ever sent (any run); the network may deliver any of them again -/
+  issued : List Rpc := []
   attempt : Nat := 0
   status : CStatus := .running
   learned : Option Status := none
@@ -122,7 +147,7 @@ def FReq.key : FReq → Nat
   | .rollback k _ => k
 
 def FReq.apply (pc : PercCfg) (ks : KeyState) : FReq → KeyState
-  | .prewrite m fts ttl => if (prewriteKey fts ttl m ks).2 = .ok then (prewriteKey fts ttl m ks).1 else ks
+  | .prewrite m fts ttl => if (prewriteKey pc fts ttl m ks).2 = .ok then (prewriteKey pc fts ttl m ks).1 else ks
   | .commit _ fts fcv => (commitReqKey pc fts fcv ks).1
   | .resolve _ fts fcv => (resolveKey fts fcv ks).1
   | .check _ fts cur => (checkTxnStatus fts cur ks).1
@@ -143,7 +168,7 @@ instance FReq.decDistinct (S CV : Nat) (r : FReq) : Decidable (r.Distinct S CV) 
 inductive Op where
   | deliver | drop | lose | notLeader
   | redeliver (i : Nat)
-  | restart
+  | restart (g : Grouping)
   | check (cur : Nat)
   | resolve (ks : List Nat)
   | other (r : FReq)
@@ -151,7 +176,7 @@ inductive Op where
 
 def execRpc (c : ClientCfg) (t : Txn) (rpc : Rpc) (s : Store) : Store × Bool :=
   match rpc with
-  | .prewrite ms => let r := prewrite t.start t.ttl ms s; (r.1, r.2.isEmpty)
+  | .prewrite ms => let r := prewrite c.perc t.start t.ttl ms s; (r.1, r.2.isEmpty)
   | .commit ks => let r := commit c.perc t.start t.cv ks s; (r.1, decide (r.2 = .ok))
 
 /-- does the client go on after this RPC's result?  (`primaryCommitErrStops = false` models a
@@ -163,32 +188,37 @@ def step (c : ClientCfg) (t : Txn) (y : Sys) (op : Op) : Sys :=
   match op with
   | .deliver =>
     if y.status ≠ .running then y else
-    match (program c t)[y.pc]? with
+    match (program c y.cur)[y.pc]? with
     | none => { y with status := .done }
     | some rpc =>
       let r := execRpc c t rpc y.store
-      if proceeds c t y.pc r.2 then
-        { y with store := r.1, pc := y.pc + 1, pcMax := max y.pcMax (y.pc + 1), attempt := 0,
-                 status := if y.pc + 1 < (program c t).length then .running else .done }
+      if proceeds c y.cur y.pc r.2 then
+        { y with store := r.1, pc := y.pc + 1, attempt := 0,
+                 issued := y.issued ++ ((program c y.cur)[y.pc + 1]?).toList,
+                 status := if y.pc + 1 < (program c y.cur).length then .running else .done }
       else { y with store := r.1, status := .failed }
   | .lose =>
     if y.status ≠ .running then y else
-    match (program c t)[y.pc]? with
+    match (program c y.cur)[y.pc]? with
     | none => { y with status := .done }
     | some rpc => { y with store := (execRpc c t rpc y.store).1, status := .failed }
   | .drop => if y.status ≠ .running then y else { y with status := .failed }
   | .notLeader =>
+    -- also: the store refuses the request for a stale region epoch / a key outside the region's
+    -- range (EpochNotMatch): not executed, the client refreshes its cache and tries again
     if y.status ≠ .running then y else
     if y.attempt + 1 < maxRetries then { y with attempt := y.attempt + 1 }
     else { y with status := .failed }
   | .redeliver i =>
-    if i ≤ y.pcMax then
-      match (program c t)[i]? with
-      | none => y
-      | some rpc => { y with store := (execRpc c t rpc y.store).1 }
-    else y
-  | .restart =>
-    if y.status = .running then y else { y with pc := 0, attempt := 0, status := .running }
+    match y.issued[i]? with
+    | none => y
+    | some rpc => { y with store := (execRpc c t rpc y.store).1 }
+  | .restart g =>
+    -- `TwoPhaseCommit` is called again with the same versions; it groups the keys by what its
+    -- routing cache says now
+    if y.status = .running then y else
+      { y with cur := t.regroup g, pc := 0, attempt := 0, status := .running,
+               issued := y.issued ++ ((program c (t.regroup g))[0]?).toList }
   | .check cur =>
     let r := checkTxnStatus t.start cur (y.store t.primary)
     { y with store := y.store.set t.primary r.1,
@@ -208,6 +238,7 @@ def step (c : ClientCfg) (t : Txn) (y : Sys) (op : Op) : Sys :=
 /-- the steps of other transactions respect timestamp uniqueness -/
 def Op.Distinct (t : Txn) : Op → Prop
   | .other r => r.Distinct t.start t.cv
+  | .restart g => g.OK t
   | _ => True
 
 instance Op.decDistinct (t : Txn) (op : Op) : Decidable (op.Distinct t) := by
@@ -215,6 +246,7 @@ instance Op.decDistinct (t : Txn) (op : Op) : Decidable (op.Distinct t) := by
 
 def run (c : ClientCfg) (t : Txn) (y : Sys) (ops : List Op) : Sys := ops.foldl (step c t) y
 
-def Sys.init (s : Store) : Sys := { store := s }
+def Sys.init (c : ClientCfg) (t : Txn) (s : Store) : Sys :=
+  { store := s, cur := t, issued := ((program c t)[0]?).toList }
 
 end NoKV.Client
